@@ -132,6 +132,32 @@ def reader_family(ck, rnd, tier, wd, trace, owner, scripts_by):
                 cid = "r%d-%d-f%d" % (i, len(pre) and (1 if "checksums" in pre[0] else 2), fi)
                 s, sink = script(cid, f, pre)
                 jobs.append((cid, s, sink, rf, f, i, pre))
+    # the calls that read the lead and the header, one at a time, with every read / seek on the input failing in turn:
+    # a call during which a system call failed has not read what it reports on (Reader!RLeadCall)
+    lead_jobs = []
+    for ht in (0, 1, 2, 3):
+        buf = ref.build_file([b"", corpus.text(rnd, 60), corpus.text(rnd, 40)], comp_type=0, hash_type=ht, chunk_hash_type=1)[0]
+        p = os.path.join(wd, "lead%d.zck" % ht); open(p, "wb").write(buf)
+        for calls in (("read_lead",), ("validate_lead",), ("read_lead", "read_header"), ("validate_lead", "validate_lead"), ("validate_lead", "read_lead", "read_header")):
+            for k in range(1, 2 * len(calls) + 2):
+                for kind, errs in (("r", ERRS), ("s", ERRS[:1])):
+                    for a in errs:
+                        cid = "lead%d-%s-%s%d-%d" % (ht, "".join(c[0] + c[-1] for c in calls), kind, k, a)
+                        L = ["case %s 30" % cid, "ctx 0", "open 0 %s r" % p, "init_adv_read 0 0", "shim_fault %s 0 %d %d" % (kind, k, a)] + ["%s 0" % c for c in calls] + ["end"]
+                        lead_jobs.append((cid, "\n".join(L) + "\n", ht, calls, kind, k, a))
+    levs = common.by_case([e for part in common.run_driver_parallel(["".join(j[1] for j in lead_jobs[k::8]) for k in range(8)], "plain", timeout=600) for e in part])
+    for (cid, s, ht, calls, kind, k, a) in lead_jobs:
+        name = "lead calls %s on an overall checksum type %d file, fault %s on input call %d action %d" % ("+".join(calls), ht, kind, k, a)
+        trace.append({"op": "begin", "case": name}); owner.append(cid)
+        seen = 0
+        for e in levs.get(cid, []):
+            if e["op"] in ("read_lead", "validate_lead", "read_header"):
+                newly = e.get("firederr", 0) > seen; seen = e.get("firederr", 0)
+                trace.append({"op": "leadcall", "call": e["op"], "ret": e["ret"], "failed": bool(newly)}); owner.append(cid)
+            elif e["op"] in ("Crash", "Hang"):
+                trace.append({"op": e["op"]}); owner.append(cid)
+        scripts_by[cid] = (s, name, None)
+        ck.case(name)
     evs = common.by_case([e for part in common.run_driver_parallel(["".join(j[1] for j in jobs[k::12]) for k in range(12)], "plain", timeout=2400) for e in part])
     for (cid, s, sink, rf, f, i, pre) in jobs:
         ce = evs.get(cid, [])
@@ -560,7 +586,7 @@ def run(tier):
     ck.sample({"writer_case": tw[0].get("case"), "events": tw[:6]})
     ck.sample({"reader_case": [t for t in tr[:6]]})
     validate_segments(ck, "C12", tw, ow, wd, scripts_by=sb, module="Trace_Writer", cfg="Trace_Writer.cfg", start_ops=("wstart",))
-    validate_segments(ck, "C12", tr, orr, wd, scripts_by=sb, module="Trace_Reader", cfg="Trace_Reader.cfg", start_ops=("open",))
+    validate_segments(ck, "C12", tr, orr, wd, scripts_by=sb, module="Trace_Reader", cfg="Trace_Reader.cfg", start_ops=("open", "begin"))
     validate_segments(ck, "C12", td, od, wd, scripts_by=sb, module="Trace_Delta", cfg="Trace_Delta.cfg", start_ops=("begin",))
     if not ck.violations:
         neg = [{"op": "wstart"}, {"op": "write", "n": 5, "ret": 5}, {"op": "wclose", "ret": 1, "f": {"valid": False, "contentEq": False, "total": -1, "cutsOk": True}}]
